@@ -578,6 +578,32 @@ fn codec_rt_dkg_round2_secret_package() {
 }
 
 // ---------------------------------------------------------------------------------------------
+// JSON (serde_json): attempted, see README ("what could not be done")
+// ---------------------------------------------------------------------------------------------
+
+// @harness name=codec_json_keypackage props=C12 kind=bounded bound="KeyPackage, all field values; unwind 40" tier=thorough backs="serde_json round trip from_str(to_string(x)) == x (human-readable branch: hex strings via serdect, ciphersuite ID string)" expect=pass
+#[kani::proof]
+#[kani::unwind(40)]
+#[kani::stub(zeroize::barrier::optimization_barrier, noop_barrier)]
+#[kani::stub(std::fmt::format, stub_format)]
+fn codec_json_keypackage() {
+    let x = any_keypackage();
+    match serde_json::to_string(&x) {
+        Err(_) => {
+            assert!(false, "to_string failed");
+        }
+        Ok(s) => match serde_json::from_str::<KeyPackage<Toy251>>(&s) {
+            Err(_) => {
+                assert!(false, "from_str failed");
+            }
+            Ok(y) => {
+                assert!(y == x);
+            }
+        },
+    }
+}
+
+// ---------------------------------------------------------------------------------------------
 // header
 // ---------------------------------------------------------------------------------------------
 
